@@ -117,7 +117,9 @@ func drive(c *vf.Ctx, sc *scenario, tot *totals) {
 		if failed {
 			// replay the same schedule: identical observations are required before a failure is believed
 			xr, outr := replay(sc, r.Choices)
-			same := func() bool { return strings.Join(xr.log, "\n") == strings.Join(x.log, "\n") && outr.Deadlock == out.Deadlock }
+			same := func() bool {
+				return strings.Join(xr.log, "\n") == strings.Join(x.log, "\n") && outr.Deadlock == out.Deadlock
+			}
 			for k := 0; k < 8 && !same(); k++ {
 				xr, outr = replay(sc, r.Choices)
 			}
